@@ -6,7 +6,7 @@
    Not covered by any theorem: completeness of the access enumeration (aliasing), channel hand-offs, logging, the runtime. *)
 From Coq Require Import List String Bool Arith.
 Import ListNotations.
-From SP Require Import Skel Gen Expected Lockset.
+From SP Require Import Skel Gen Expected ExpectedCones Lockset.
 Open Scope string_scope.
 
 (* (1) two accesses of different threads that are both made while holding a common mutex are ordered by happens-before
@@ -87,6 +87,22 @@ Theorem C12_feeder_refuted_before_repair :
   /\ touches "pip.RemotePorts" (SBlock [SRange "proc.InParamPorts()" [SRange "pip.RemotePorts" [SCall "visit"]]]) = true.
 Proof. split; vm_compute; reflexivity. Qed.
 
+(* T1, call cones: every function of scipipe that the functions above can reach (calls and function values, interface calls
+   resolved to every implementation) is one the models were compared with -- a helper that is new to the cone, or a new call
+   of an old one, changes a list (the lists are regenerated from /repo on every run; ExpectedCones.v holds the accepted ones) *)
+Theorem C12_cone_conforms :
+  strs_eqb cone_FileIP_auditInfoSnapshot exp_cone_FileIP_auditInfoSnapshot
+  && strs_eqb cone_FileIP_Tags exp_cone_FileIP_Tags
+  && strs_eqb cone_FileIP_AddTag exp_cone_FileIP_AddTag
+  && strs_eqb cone_FileIP_AddTags exp_cone_FileIP_AddTags
+  && strs_eqb cone_FileIP_AuditInfo exp_cone_FileIP_AuditInfo
+  && strs_eqb cone_FileIP_SetAuditInfo exp_cone_FileIP_SetAuditInfo
+  && strs_eqb cone_FileIP_WriteAuditLogToFile exp_cone_FileIP_WriteAuditLogToFile
+  && strs_eqb cone_Task_writeAuditLogs exp_cone_Task_writeAuditLogs
+  && strs_eqb cone_InPort_CloseConnection exp_cone_InPort_CloseConnection
+  && strs_eqb cone_InParamPort_CloseConnection exp_cone_InParamPort_CloseConnection = true.
+Proof. vm_compute. reflexivity. Qed.
+
 Print Assumptions C12_code_conforms.
 Print Assumptions C12_lockset_sound.
 Print Assumptions C12_discipline_tags.
@@ -95,3 +111,4 @@ Print Assumptions C12_only_accessors.
 Print Assumptions C12_no_writes_to_package_variables.
 Print Assumptions C12_tags_refuted_before_repair.
 Print Assumptions C12_feeder_refuted_before_repair.
+Print Assumptions C12_cone_conforms.
